@@ -317,6 +317,20 @@ func (r *qRunner) drainEvents() bool {
 
 func (r *qRunner) threads() []*qThread { return append(append([]*qThread{}, r.cons...), r.closer) }
 
+// qParked: the goroutine waits for another goroutine (channel, select, lock).  If every goroutine
+// the harness started is parked like this in ONE stop-the-world snapshot and no report is pending,
+// nothing can change until the harness acts again.  Waits that end by themselves (sleep, IO) and
+// running/runnable goroutines are not parked.  A consumer held by the yield handler is also in
+// "chan receive", but it has sent its "held" report before parking, so it is never misread.
+func qParked(st string) bool {
+	switch st {
+	case "select", "chan receive", "chan send", "select (no cases)", "sync.Mutex.Lock",
+		"sync.RWMutex.Lock", "sync.RWMutex.RLock", "sync.Cond.Wait", "semacquire":
+		return true
+	}
+	return false
+}
+
 // settle waits until every started goroutine has reported or is parked in a select.
 func (r *qRunner) settle() error {
 	deadline := time.Now().Add(20 * time.Second)
@@ -338,7 +352,7 @@ func (r *qRunner) settle() error {
 				continue
 			}
 			st, ok := snap[th.gid]
-			if ok && st == "select" && !th.short {
+			if ok && qParked(st) && !th.short {
 				continue
 			}
 			quiet = false
@@ -356,7 +370,7 @@ func (r *qRunner) settle() error {
 		}
 		for _, th := range r.threads() {
 			if th.state == tBlocked {
-				if st, ok := snap[th.gid]; !ok || st != "select" {
+				if st, ok := snap[th.gid]; !ok || !qParked(st) {
 					th.state = tRunning
 				}
 			}
@@ -986,13 +1000,17 @@ func queuesMain(args []string) error {
 			out.Put(runQCase(*queue, *nc, "replay", ops))
 			return nil
 		}
-		total := 0
+		total, nerr := 0, 0
 		for _, cfg := range qConfigs(*queue, *tier == "thorough") {
 			cnt := 0
 			interleavings(cfg.progs, func(ops []qOp) {
 				cnt++
-				if *mode == "forced" {
-					out.Put(runQCase(cfg.queue, cfg.nc, cfg.name, ops))
+				if *mode == "forced" && nerr < 4 {
+					c := runQCase(cfg.queue, cfg.nc, cfg.name, ops)
+					if c.Err != "" {
+						nerr++
+					}
+					out.Put(c)
 				}
 			})
 			total += cnt
@@ -1002,6 +1020,9 @@ func queuesMain(args []string) error {
 		}
 		if *mode == "count" {
 			fmt.Printf("total %d\n", total)
+		}
+		if nerr >= 4 {
+			return fmt.Errorf("gave up after %d schedules the harness could not bring to quiescence", nerr)
 		}
 		return nil
 	}
